@@ -6,6 +6,7 @@ import (
 	"time"
 
 	"github.com/tyler-sommer/stick"
+	"github.com/tyler-sommer/stick/twig"
 	"github.com/tyler-sommer/stick/parse"
 
 	"verif/core"
@@ -353,7 +354,28 @@ func c04Run(c core.Case) core.Result {
 			}
 		}
 	}
+	// ... and in a Twig environment (whose auto-escaper rewrites the printed expression), with operands that are
+	// marked safe, plain markup, or numbers
+	if len(ops) <= 2 {
+		tenv := twig.New(nil)
+		addStdCallbacks(tenv)
+		for vi, val := range c04TwigVals {
+			o1, e1, p1 := tryExec(tenv, "{{ "+bare+" }}", val)
+			o2, e2, p2 := tryExec(tenv, "{{ "+par+" }}", val)
+			if p1 != "" || p2 != "" {
+				continue
+			}
+			if o1 != o2 || (e1 == nil) != (e2 == nil) {
+				return core.Violation("rendered", fmt.Sprintf("twig environment, valuation %d: {{ %s }} renders %q (%v) but {{ %s }} renders %q (%v)", vi, bare, o1, e1, par, o2, e2))
+			}
+		}
+	}
 	return core.Okay(len(ops) >= 2 || unaryPos >= 0 || deco > 0, want)
+}
+
+var c04TwigVals = []map[string]stick.Value{
+	{"a": stick.NewSafeValue("<a>", "html"), "b": "<b>", "c": stick.NewSafeValue("&c", "html"), "d": "'d'", "e": stick.NewSafeValue("<e>", "js"), "g": 6, "h": "<h>", "p": 1, "r": 0, "y": stick.NewSafeValue("<y>", "html"), "z": "<z>"},
+	{"a": "<a>", "b": stick.NewSafeValue("<b>", "html"), "c": "&c", "d": stick.NewSafeValue("\"d\"", "html"), "e": "<e>", "g": stick.NewSafeValue("<g>", "html"), "h": 2, "p": 0, "r": 1, "y": "<y>", "z": stick.NewSafeValue("<z>", "html")},
 }
 
 // c04Long: a chain of n operands joined by one operator, and a ladder of n conditionals chained through their else
